@@ -298,6 +298,7 @@ scStartLine(void)
 	}
 	if (!scSrcLines) {
 		scLine = 0;
+		scIsSysCmd = false;
 		phaseDEBUG(dbOut, "Scan ended.\n");
 	}
 	else {
